@@ -195,7 +195,7 @@ def opcode_contracts(run, extra_ensures=None, props=()):
         rinfo = a[0]
         wrapped = rinfo["name"] == "run_wrapper"
         frame = ["interpreter.stack._stack[]", "interpreter.memory[]", "interpreter.module_body._list[]", "interpreter._var_counter",
-                 "interpreter._opcodes", "@list.items", "@ast.lineno", "@iterator.pos"]
+                 "interpreter._opcodes", "@list.items:nodeowned", "@ast.lineno", "@iterator.pos"]
         common = dict(params=f"self: {cls}, interpreter: fickle.Interpreter", may_raise=MAY_RAISE, exact_raises=False,
                       props=["no-frame"] + list(props), modifies=frame)
         extra = (extra_ensures(name, cls, info) if extra_ensures else [])
